@@ -248,5 +248,8 @@ func ruleC09(w *World, r *Report) {
 	for _, app := range apps {
 		k.appSendRule("C09.app.own", app)
 	}
+	// no sequence reuse across an export/import: the send counters and the pending commitments
+	// are exported from and restored into their own key class, unpermuted (shared with C16)
+	k.genesisFieldRule("C09.genesis")
 	r.MinInstances("C09.", 45)
 }
